@@ -1,0 +1,17 @@
+//go:build verif
+
+// Contracts for govc (see /verif/DESIGN.md). Comment-only; compiled only with -tags verif.
+
+package syslogprotocol
+
+//@ property C07 C08
+
+// total: no precondition on s (any bytes, any length); a line is a record start iff it is at least 32 bytes long and begins
+// with '<', 1-3 digits, ">1 ". recstart is the spec predicate the framing contracts (tcplistener) refer to.
+//@ pure func recstart(s []byte) bool := len(s) >= 32 && s[0] == 60 && isdig(s[1])
+//@      && ((s[2] == 62 && s[3] == 49 && s[4] == 32) || (isdig(s[2]) && s[3] == 62 && s[4] == 49 && s[5] == 32) || (isdig(s[2]) && isdig(s[3]) && s[4] == 62 && s[5] == 49 && s[6] == 32))
+//@ func TestRecordStart(s []byte) bool
+//@   modifies nothing
+//@   ensures[shape] result <==> recstart(s)
+//@   loop 1: invariant 2 <= i && i <= 4 && forall k int :: 2 <= k && k < i ==> isdig(s[k])
+//@   loop 1: decreases 4 - i
